@@ -217,7 +217,7 @@ extern "C" void h_dec_err()
 // ---------------------------------------------------------------------------------------------------------------------------
 // (4) integrity / fingerprint acceptance on buffers with a fixed attribute layout; header, attribute LENGTH fields of the
 //     last attribute and all payload bytes are symbolic; key non-empty (1..2 symbolic bytes).
-// cfg0 = variant, cfg1 = key length bound (0: empty key)
+// cfg0 = variant, cfg1 = key length bound (0: empty key), cfg2 = 1: also assert C15 (i), cfg3 = 1: symbolic length field in the last attribute
 enum { V_MI = 1, V_MI_FP = 2, V_PRIO_MI = 3, V_USER_MI = 4, V_XADDR_MI = 5, V_UNK_MI = 6, V_MI_PRIO = 7, V_FP = 8, V_MI_MI = 9 };
 extern "C" void h_dec_mi()
 {
@@ -235,11 +235,12 @@ extern "C" void h_dec_mi()
     QByteArray b = freshBytes(n, n);
     put16(b, 2, n - 20);
     if (ptype) { put16(b, 20, ptype); put16(b, 22, plen); if (var == V_XADDR_MI) { vp_set_byte(&b, 25, 1); } }
-    // only the LAST attribute keeps a symbolic length field (a symbolic length in front would make every later position symbolic;
-    // that case is what the arbitrary-buffer instances h_dec_any cover)
+    // cfg3 = 1: the LAST attribute keeps a symbolic length field (a symbolic length in front of further attributes would make every later
+    // position symbolic; that case is what the arbitrary-buffer instances h_dec_any cover); cfg3 = 0: all length fields are the valid constants
+    const bool symLen = vp_cfg3() != 0;
     const unsigned p2 = mi + (hasMi ? 24 : 0);
-    if (hasMi) { put16(b, mi, 0x0008); if (post) put16(b, mi + 2, 20); }
-    if (var == V_MI_FP || var == V_FP) put16(b, p2, 0x8028);
+    if (hasMi) { put16(b, mi, 0x0008); if (post || !symLen) put16(b, mi + 2, 20); }
+    if (var == V_MI_FP || var == V_FP) { put16(b, p2, 0x8028); if (!symLen) put16(b, p2 + 2, 4); }
     if (var == V_MI_PRIO) { put16(b, p2, 0x0024); put16(b, p2 + 2, 4); }
     if (var == V_MI_MI) { put16(b, p2, 0x0008); put16(b, p2 + 2, 20); }
 
